@@ -121,3 +121,46 @@ def slip_expected(nidx, upper, s):
         other = np.zeros(3) if upper[i] else s
         out[i] = (own - other) * k
     return out, nacross
+
+
+# ---------------------------------------------------------------- hand-computed cases
+def selfcheck():
+    """The oracle against cases worked out by hand (raises AssertionError)."""
+    g = 0.01
+    F = np.eye(3)
+    F[0, 1] = g                                    # simple shear x -> x + g y
+    Gs = G_from_F(F)
+    assert np.allclose(Gs, np.eye(3) - g * np.outer([0, 1, 0], [1, 0, 0]), atol=1e-15)
+    assert np.allclose(G_from_F(np.diag([2.0, 1, 1])), np.diag([0.5, 1, 1]))
+    assert np.allclose(strain_from_G(np.diag([0.5, 1, 1])), np.diag([0.5, 0, 0]))
+    e = strain_from_G(Gs)
+    assert np.isclose(e[0, 1], g / 2) and np.isclose(e[1, 0], g / 2) and np.isclose(np.trace(e), 0)
+    r = rotation_from_G(Gs)
+    assert np.isclose(r[1, 0], g / 2) and np.isclose(r[0, 1], -g / 2) and np.isclose(angular_velocity(r), g / 2)
+    i1, i2, i3 = invariants(np.diag([1.0, 2, 3]))
+    assert np.isclose(i1, 6) and np.isclose(i2, 11) and np.isclose(i3, 6)
+    A = np.zeros((3, 3, 3))
+    A[0, 2, 1] = 0.3                               # d G_02 / d x_1 = 0.3  ->  (curl G)_22 = eps_210 * 0.3 = -0.3
+    al = nye_from_gradient(A)
+    exp = np.zeros((3, 3))
+    exp[2, 2] = 0.3
+    assert np.allclose(al, exp)
+    A = np.zeros((3, 3, 3))
+    A[1, 0, 2] = 1.0                               # d G_10 / d x_2  ->  (curl G)_00 = eps_021 = -1
+    exp = np.zeros((3, 3))
+    exp[0, 0] = 1.0
+    assert np.allclose(nye_from_gradient(A), exp)
+    pos = np.array([[0.5, 5, 5], [9.5, 5, 5], [5.0, 5, 5]])
+    idx, vec, _ = neighbours(pos, 10 * np.eye(3), (True, False, False), 2.0)
+    assert list(idx[0]) == [1] and list(idx[1]) == [0] and len(idx[2]) == 0
+    assert np.allclose(vec[0][0], [-1, 0, 0]) and np.allclose(vec[1][0], [1, 0, 0])
+    idx, vec, _ = neighbours(pos, 10 * np.eye(3), (False, True, True), 2.0)
+    assert all(len(x) == 0 for x in idx)
+    # chain 0-1-2, atom 2 slipped by s: atom 1 has one neighbour across, atom 0 none
+    s = np.array([0.1, 0.2, 0.0])
+    out, k = slip_expected([np.array([1]), np.array([0, 2]), np.array([1])], [False, False, True], s)
+    assert list(k) == [0, 1, 1] and np.allclose(out[0], 0) and np.allclose(out[1], -s) and np.allclose(out[2], s)
+    d = through_boundaries(np.array([[9.0, 0.2, 0.0]]), 10 * np.eye(3), (True, True, True))
+    assert np.allclose(d, [[-1.0, 0.2, 0.0]])
+    assert np.isclose(unique_image_radius(np.diag([10.0, 4, 6]), (True, False, True)), 3.0)
+    return True
